@@ -441,6 +441,29 @@ def unit_quat_pivot(rng, k):
     return [c * rng.choice([1, -1]) for c in out]
 
 
+def tie_unit_quats():
+    """exactly unit rational quaternions [s,x,y,z] with |s| < 1/2 (negative trace) in which two vector components
+    have EQUAL magnitude (a bit-exact tie between two diagonal elements of the matrix) and the third is smaller,
+    zero included: the inputs on which the order of the comparisons in the matrix->quaternion conversion matters"""
+    out = []
+    for d in range(2, 40):
+        for p in range(0, d // 2 + 1):
+            if 2 * p >= d:
+                continue
+            for a in range(1, d):
+                r = d * d - p * p - 2 * a * a
+                if r < 0:
+                    break
+                y = int(round(r ** 0.5))
+                if y * y == r and y < a:
+                    w, A, Y = F(p, d), F(a, d), F(y, d)
+                    for (sw, sa, sb) in ((1, 1, 1), (-1, 1, -1), (1, -1, 1)):
+                        out += [[sw * w, sa * A, Y, sb * A], [sw * w, sa * A, sb * A, Y], [sw * w, Y, sa * A, sb * A]]
+        if len(out) >= 90:
+            break
+    return out
+
+
 def quat_to_m3(q):
     w, x, y, z = q
     return [1 - 2 * y * y - 2 * z * z, 2 * x * y + 2 * z * w, 2 * x * z - 2 * y * w,
@@ -525,6 +548,8 @@ class C05(Base):
         out.append(Case("b3.invert", [F(0), F(1, 1), F(0), F(0)], family="edge"))
         h = F(1, 2)
         out.append(Case("m3.to_quat", quat_to_m3([h, h, h, h]), family="trace-zero-boundary"))
+        for q in tie_unit_quats():
+            out.append(Case("m3.to_quat", quat_to_m3(q), family="diagonal-tie"))
         return out
 
     def oracle_cases(self, rng, tier):
@@ -534,6 +559,8 @@ class C05(Base):
             out.append(Case("o.q.same_rotation", rng.unit_quat() + rng.unit_quat() + [rng.rat() for _ in range(3)], family="oracle-unit"))
             for b in range(4):
                 out.append(Case("o.q.roundtrip", unit_quat_pivot(rng, b), family=f"oracle-branch-{b}"))
+        for q in tie_unit_quats():
+            out.append(Case("o.q.roundtrip", q, family="oracle-diagonal-tie"))
         return out
 
 
@@ -683,7 +710,9 @@ class C10(Base):
         pf, pa, ph, pn, pfar = valid_planar(rng)
         for op in ("proj.planar", "proj.planar_s"):
             out += [(op, [PI, pa, ph, pn, pfar]), (op, [-PI, pa, ph, pn, pfar]), (op, [PI + 2, pa, ph, pn, pfar]),
-                    (op, [pf, pa, -ph, pn, pfar]), (op, [pf, F(0), ph, pn, pfar]), (op, [pf, pa, ph, pn, pn])]
+                    (op, [pf, pa, -ph, pn, pfar]), (op, [pf, F(0), ph, pn, pfar]), (op, [pf, pa, ph, pn, pn]),
+                    # the orthographic special case fovy = 0 (focal point at infinity) still has the other preconditions
+                    (op, [F(0), F(0), ph, pn, pfar]), (op, [F(0), pa, ph, pn, pn]), (op, [F(0), pa, -ph, pn, pfar])]
         return out
 
     def families(self, rng, tier):
@@ -694,6 +723,8 @@ class C10(Base):
             for op in ("proj.perspective", "proj.perspective_s", "proj.to_perspective"):
                 out.append(Case(op, vp, family="valid"))
             out.append(Case("proj.perspective_deg", [F(rng.rng(1, 179))] + vp[1:], family="valid"))
+            for op in ("proj.perspective", "proj.perspective_s"):
+                out.append(Case(op, [vp[0], vp[1], vp[3], vp[2]], family="valid-reversed-depth"))
             box = [F(-2), F(3), F(-1), F(5, 2), vp[2], vp[3]]
             for op in ("proj.ortho", "proj.ortho_s", "proj.frustum", "proj.frustum_s"):
                 out.append(Case(op, box, family="valid"))
@@ -716,6 +747,8 @@ class C10(Base):
             out.append(Case("o.proj.ortho", [rng.rat() for _ in range(6)], family="oracle"))
             out.append(Case("o.proj.frustum", sorted([rng.rat(), rng.rat()]) + sorted([rng.rat(), rng.rat()]) + [vp[2], vp[3]], family="oracle"))
             out.append(Case("o.proj.perspective", vp, family="oracle"))
+            # reversed depth range: legal for perspective (only near, far > 0 and near != far are required)
+            out.append(Case("o.proj.perspective", [vp[0], vp[1], vp[3], vp[2]], family="oracle-reversed-depth"))
             out.append(Case("o.proj.planar", valid_planar(rng), family="oracle"))
             # focal-point precondition with the planes given in either order and on either side of the origin
             pf, pa, ph, _, _ = valid_planar(rng)
@@ -814,7 +847,7 @@ class C11(Base):
           ["q.magnitude2", "q.magnitude", "q.distance2", "q.distance", "q.normalize", "q.normalize_to", "q.angle",
            "q.project_on", "q.dot", "v2.perp_dot", "v3.cross"]
     oracle_ops = ["o.v1.metric", "o.v2.metric", "o.v3.metric", "o.v4.metric", "o.q.metric"]
-    native_args = float_args("c11")
+    native_runs = float_runs("c11", "nrc11")
 
     def families(self, rng, tier):
         out = []
@@ -1150,7 +1183,10 @@ class C15(Base):
         k = 30 if tier == "quick" else 1500
         for _ in range(k):
             out.append(Case("o.arc.special", rng.unit_vec3(), family="oracle"))
-        for v in ([F(3, 5), F(4, 5), F(0)], [F(1), F(0), F(0)], [F(0), F(3, 5), F(-4, 5)], [F(0), F(0), F(1)]):
+        for v in ([F(3, 5), F(4, 5), F(0)], [F(1), F(0), F(0)], [F(0), F(3, 5), F(-4, 5)], [F(0), F(0), F(1)],
+                  # along every coordinate axis in both directions, and in every coordinate plane
+                  [F(-1), F(0), F(0)], [F(0), F(1), F(0)], [F(0), F(-1), F(0)], [F(0), F(0), F(-1)],
+                  [F(-3, 5), F(0), F(4, 5)], [F(-4, 5), F(-3, 5), F(0)], [F(0), F(-3, 5), F(4, 5)], [F(3, 5), F(0), F(-4, 5)]):
             out.append(Case("o.arc.special", v, family="oracle-exact-opposite"))
         return out
 
